@@ -1,6 +1,6 @@
 (* Props/C13.v -- polarisation conversions are unitary, invertible and Stokes-consistent (over R, s = sqrt 2). *)
 From Coq Require Import Reals List String ZArith.
-From PB Require Import Gen.GenConsts Model.Pol Proofs.PolProofs.
+From PB Require Import Gen.GenConsts Model.Pol Proofs.PolProofs Gen.GenPol Proofs.PolGen.
 Import ListNotations.
 Open Scope R_scope.
 
@@ -35,9 +35,25 @@ Theorem C13_component_names : stokes_index "I" = Some 0%Z /\ stokes_index "Q" = 
                               stokes_index "V" = Some 3%Z /\ stokes_index "X" = None.
 Proof. exact stokes_names. Qed.
 
+(* tie to the source by translation (T11): the formulas of to_intensity, to_linear, to_circular and both branches of to_stokes are
+   GENERATED from core.py on this run over the same abstract carrier; the model's definitions are EQUAL to them for every carrier - in
+   particular for R (the theorems above) and for binary64 (the instance run against the code) *)
+Theorem C13_generated : forall (T : Type) (add sub mul div : T -> T -> T) (opp : T -> T) (two s : T) (a b : Cx T),
+  to_intensity T add mul a = gen_intensity T add mul a /\
+  to_lin T add sub div opp s a b = gen_to_lin T add sub div opp s a b /\
+  to_circ T add sub div opp s a b = gen_to_circ T add sub div opp s a b /\
+  stokes_lin T add sub mul opp two a b = gen_stokes_lin T add sub mul opp two a b /\
+  stokes_circ T add sub mul opp two a b = gen_stokes_circ T add sub mul opp two a b.
+Proof.
+  exact (fun T add sub mul div opp two s a b =>
+    conj (to_intensity_generated T add mul a) (conj (to_lin_generated T add sub div opp s a b) (conj (to_circ_generated T add sub div opp s a b)
+    (conj (stokes_lin_generated T add sub mul opp two a b) (stokes_circ_generated T add sub mul opp two a b))))).
+Qed.
+
 Print Assumptions C13_unitary_to_circular.
 Print Assumptions C13_inverse_lin_circ.
 Print Assumptions C13_inverse_circ_lin.
 Print Assumptions C13_basis_independent.
 Print Assumptions C13_IQUV.
 Print Assumptions C13_component_names.
+Print Assumptions C13_generated.
